@@ -589,7 +589,10 @@ def run_post(out, case, jobs, owner, rng):
         out.count("post: iterative paths skipped (cond(Kxx+S) >= 300)")
     for flag in flags:
         iterative = flag in ("fast_pred_var", "fast_pred_var+noeager", "cg")
-        tol = ITER_TOL if iterative else EIG_TOL
+        # iterative solves are accurate to ITER_TOL RELATIVE to the solve they perform; the posterior amplifies that by the
+        # same factor (1 + |A^-1 k|_1)^2 that amplifies entry rounding (amp, recorded in the case)
+        iter_tol = ITER_TOL * max(1.0, amp)
+        tol = iter_tol if iterative else EIG_TOL
         desc = dict(base, flag=flag)
         key = "post:%s:%s:%s" % (spec["fam"], case["geom"], flag)
         out.case(dict(kind="post", fam=spec["fam"], geom=case["geom"], ls=spec["lsmode"], n=n, t=t, noise=case["noise"], lik=case["lik"],
@@ -622,7 +625,7 @@ def run_post(out, case, jobs, owner, rng):
                 out.fail("post-exception:%s:%s:%s" % (spec["fam"], flag, type(e).__name__), "posterior computation raised %r" % e, desc)
             continue
         cert = flag in ("default",)
-        st = ITER_TOL if iterative else SYM_TOL
+        st = iter_tol if iterative else SYM_TOL
         check_matrix(out, key + ":cov", "exact posterior covariance", desc, cov, jobs, owner, tol, cert, ref=sc, symtol=st, rb=rb)
         check_matrix(out, key + ":prior-minus-post", "prior minus posterior covariance", desc, Kss - cov, jobs, owner, tol, cert,
                      ref=sc, symtol=st, rb=rb)
@@ -1581,6 +1584,10 @@ def nf_cases(rng, tier):
                              raws=[_nf_raw(rng) for _ in range(8)], geom=rng.choice(["random", "dup", "grid"]))
                     if ck == "positive":    # lower bound 0: keep softplus(raw) > 0 in float64 (a zero scale is refused by torch's Normal)
                         c["raws"] = [max(v, -30.0) for v in c["raws"]]
+                    if model == "heteroskedastic-posterior":
+                        # a posterior needs an invertible K + S: with the noise allowed down to ~1e-15 (lower bound 0, raw -35)
+                        # duplicated inputs make it exactly singular and torch.linalg.solve rightly refuses
+                        c["geom"] = rng.choice(["random", "grid"])
                     if model.startswith("heteroskedastic"):
                         c["outputs"] = [1, 2, 3][var] if model == "heteroskedastic" else rng.choice([1, 2])
                         c["index"] = None if c["outputs"] == 1 else rng.choice(([None] if model != "heteroskedastic-posterior" else [])
@@ -1967,7 +1974,7 @@ def run(out, ctx):
     out.extra["tolerances"] = {"eig": "lambda_min >= -max(%g*scale, 8*n*b)" % EIG_TOL, "symmetry": "max(%g*scale, 8*b)" % SYM_TOL,
                                 "b": "per-case entry rounding bound (see rule); recorded as entry_rounding_bound / rounding in every case",
                                 "certificate": "exact: round(A, scale*2^-%d) + %g*scale*I = Lf Lf^T + diagonally dominant remainder, sizes <= %d" % (GRID_BITS, CERT_SLACK * EIG_TOL, CERT_MAX),
-                                "lanczos/cg paths (cond < 300 only)": ITER_TOL, "monotone": "max(%g*scale, 8*b)" % MONO_TOL,
+                                "lanczos/cg paths (cond < 300 only)": "%g * max(1, solve amplification)" % ITER_TOL, "monotone": "max(%g*scale, 8*b)" % MONO_TOL,
                                 "clamps": "exact", "noise value vs model": "rtol 1e-9 (torch softplus threshold 20)"}
     for case in gram_cases(rng, tier):
         run_gram(out, case, jobs, owner)
